@@ -24,7 +24,7 @@ RULE = ("every ordered pair of the 16 public classes plus {int, float, d-vector,
         "returned None/NotImplemented/identity/foreign-element object is a violation; stated pairs must return the stated "
         "class and the reference value. Non-trivial: different classes, or multi-valued, or subclass-related pair.")
 RULE = RULE + probes.RULE_TEXT + (probes.AUG_TEXT if PROPERTY_ID in probes.AUG_PROPS else "") + probes.VARIANT_TEXT
-ASSUMPTIONS = ["ndarray as LEFT operand is dispatched by NumPy and excluded", "spatial-vector * int (vector on the left) is the inherited list repetition: judged as a list operation (own elements repeated), not as arithmetic; int * spatial-vector goes through the class's own __rmul__ and must raise", "same-class cells whose only meaning is the inherited list concatenation/repetition are reported (label same_class_undocumented), not judged",
+ASSUMPTIONS = ["ndarray as LEFT operand: no pair is documented, every combination (12 shapes x 6 operators x every class) must raise (sub-check ndarray_left)", "spatial-vector * int (vector on the left) is the inherited list repetition: judged as a list operation (own elements repeated), not as arithmetic; int * spatial-vector goes through the class's own __rmul__ and must raise", "same-class cells whose only meaning is the inherited list concatenation/repetition are reported (label same_class_undocumented), not judged",
                "documented pairs outside the statement (tier P3) may raise: recorded under label documented_but_raises, not a violation"]
 
 POSES = ["SO2", "SE2", "SO3", "SE3"]
@@ -273,9 +273,43 @@ def valid_elem(kind, a):
     return a.shape == shape
 
 
+LARR_SHAPES = {"0d": (), "v1": (1,), "v2": (2,), "v3": (3,), "v4": (4,), "v6": (6,), "m22": (2, 2), "m33": (3, 3), "m44": (4, 4), "m24": (2, 4), "m32": (3, 2), "m16": (1, 6)}
+
+
+def gen_larr(tier):
+    for op in ARITH:
+        for sh in LARR_SHAPES:
+            for rk in CLASSES:
+                for nr in ((1, 3) if rk in LISTY else (1,)):
+                    yield {"kind": "larr", "op": op, "shape": sh, "R": rk, "nr": nr, "vals": DEFAULT_VALS, "L": "ndarray", "nl": 1}
+
+
+def _larr(case):
+    """a NumPy array as LEFT operand of an arithmetic operator with a library object on the right: no such pair is
+    documented, so nothing may come back (NumPy dispatches first; the classes' reflected methods must not answer)"""
+    op, sh, rk, nr = case["op"], case["shape"], case["R"], case["nr"]
+    c = Checker("larr", op=op, shape=sh, R=rk, nr=nr)
+    right, _ = build(rk, nr, case["vals"], "R")
+    shape = LARR_SHAPES[sh]
+    A = (np.arange(1.0, 1.0 + max(1, int(np.prod(shape)))) * 0.5).reshape(shape) if shape else np.array(2.0)
+    if op == "**":
+        A = np.abs(A) + 0.5
+    before = A.copy()
+    try:
+        with np.errstate(all="ignore"):
+            res = FN[op](A, right)
+    except Exception:  # noqa  rejected
+        return c.out
+    c.fail("ndarray%s %s %s/must_raise" % (sh, op, rk), "ndarray of shape %s %s %s returned %s instead of raising" % (shape, op, rk, _describe(res)))
+    c.eq("ndarray operand untouched", A, before, 0)
+    return c.out
+
+
 def check_case(case):
     if case.get("kind") in ("hist", "aug", "variant"):
         return probes.run(case, PROPERTY_ID)
+    if case.get("kind") == "larr":
+        return _larr(case)
     op, lk, rk = case["op"], case["L"], case["R"]
     nl, nr = case["nl"], case["nr"]
     vals = case["vals"]
@@ -466,6 +500,8 @@ def s_cells():
 def classify(case):
     if case.get("kind") in ("hist", "aug", "variant"):
         return probes.classify(case)
+    if case.get("kind") == "larr":
+        return {"kind:larr": True, "op:" + case["op"]: True, "multi": case["nr"] > 1, "nontrivial": True}
     lk, rk, op = case["L"], case["R"], case["op"]
     spec = doc(op, lk, rk)
     lab = {"op:" + op: True, "tier:" + (spec[0] if spec else ("same_class_undocumented" if lk == rk else "P1")): True,
@@ -484,6 +520,7 @@ def extra_evidence(tier):
 def subchecks(tier):
     return [
         Sub("cells", gen=gen_cells, shards=(8, 16)),
+        Sub("ndarray_left", gen=gen_larr, shards=(4, 8)),
         Sub("values", strategy=s_cells(), n=(400, 20000), shards=(12, 16)),
         *probes.subs(PROPERTY_ID),
     ]
